@@ -66,8 +66,8 @@ func c16RunBatch(c *Ctx, cases []c16Case, idx *int) {
 			plain := c16Feed(cs, false)
 			col := c16Feed(cs, true)
 			if a, b := sgr.ReplaceAllString(col, ""), sgr.ReplaceAllString(plain, ""); a != b {
-				c.Violation("colouring-alters-text", fmt.Sprintf("handler %s, server bytes %q: coloured output without escape sequences %q != uncoloured %q",
-					cs.Handler, cs.Stream, a, b), cs)
+				c.Violation("colouring-alters-text", fmt.Sprintf("handler %s, server bytes %s: coloured output without escape sequences %s != uncoloured %s",
+					cs.Handler, c16Show(cs.Stream), c16Show(a), c16Show(b)), c16Short(cs))
 			}
 			key := ""
 			if plain != "" {
@@ -86,7 +86,7 @@ func c16RunBatch(c *Ctx, cases []c16Case, idx *int) {
 	if res.Fail != nil && *idx < len(cases) {
 		cs := cases[*idx]
 		c.Count(cs.Handler + "|" + cs.Stream)
-		c.Violation(c16Sig(cs, res.Fail.Error()), fmt.Sprintf("handler %s, server bytes %q: %s", cs.Handler, cs.Stream, res.Fail.Error()), cs)
+		c.Violation(c16Sig(cs, res.Fail.Error()), fmt.Sprintf("handler %s, server bytes %s: %s", cs.Handler, c16Show(cs.Stream), res.Fail.Error()), c16Short(cs))
 		*idx++
 	}
 }
@@ -240,6 +240,21 @@ func c16Sig(cs c16Case, msg string) string {
 
 const c16Delim = "\xac"
 
+// c16Show quotes a byte stream, abbreviating the long ones.
+func c16Show(s string) string {
+	if len(s) > 400 {
+		return fmt.Sprintf("%q...(%d bytes)...%q", s[:120], len(s), s[len(s)-80:])
+	}
+	return fmt.Sprintf("%q", s)
+}
+
+func c16Short(cs c16Case) c16Case {
+	if len(cs.Stream) > 400 {
+		cs.Stream = c16Show(cs.Stream)
+	}
+	return cs
+}
+
 func c16Cases(thorough bool) (out []c16Case) {
 	toks := []string{"REMOTE", "SERVER", "CLIENT", "AGGREGATE", "|", ".", ".syn close connection", "x", "100", " 42", "WARN", "ERROR", "FATAL",
 		"\n", c16Delim, "∥", "≔", "1", "k", "\x1b[31m", "\r", "\r\n"}
@@ -276,6 +291,17 @@ func c16Cases(thorough bool) (out []c16Case) {
 			}
 		}
 	}
+	// records longer than the transport buffer and the handler's receive buffer growth steps, alone, followed by a
+	// short record, and split at the 32 KiB transport boundaries
+	long := []string{"REMOTE|h|100|1|f|" + strings.Repeat("x", 70000), "REMOTE|h|100|1|f|" + strings.Repeat("y", 32768-18), "AGGREGATE|h|" + strings.Repeat("k", 40000) + "∥1∥count(x)≔1∥sum(y)≔2∥",
+		"SERVER|h|ERROR|" + strings.Repeat("e", 33000), strings.Repeat("p", 66000)}
+	for _, h := range []string{"client", "mapr", "health"} {
+		for _, a := range long {
+			out = append(out, c16Case{Handler: h, Stream: a + c16Delim}, c16Case{Handler: h, Stream: a + c16Delim + "REMOTE|h|100|2|f|after" + c16Delim},
+				c16Case{Handler: h, Stream: a + c16Delim + "REMOTE|h|100|2|f|after" + c16Delim, Chunk: 32768}, c16Case{Handler: h, Stream: a + c16Delim, Chunk: 32767},
+				c16Case{Handler: h, Stream: ".syn close connection" + c16Delim + a + c16Delim, Chunk: 32768})
+		}
+	}
 	if thorough {
 		var two []string
 		c10Seq(toks, 2, "", func(m string) { two = append(two, m) })
@@ -295,7 +321,7 @@ func init() {
 		ID:    "C16",
 		Level: "exploration",
 		Rule: "server byte streams enumerated exhaustively: every message of <=4 (quick) / <=5 (thorough) tokens over a 22-token alphabet (incl. CR and CRLF) (record words, '|', '.', the hidden close message, numbers, severities, " +
-			"newline, the 0xAC message delimiter, the aggregate delimiters, an escape sequence), 30 well-formed/nearly well-formed records followed by every record or token, each record split across two Write calls " +
+			"newline, the 0xAC message delimiter, the aggregate delimiters, an escape sequence), 30 well-formed/nearly well-formed records followed by every record or token, 5 records of 32-70 KB (alone, followed by a short record, split at the transport boundary), each record split across two Write calls " +
 			"at every byte; each stream is fed to the real ClientHandler, MaprHandler and HealthHandler twice (colours off/on) under the controlled scheduler; oracle: no panic in any goroutine and " +
 			"strip(coloured) == strip(uncoloured) where strip removes SGR escape sequences (applied to both sides); non-trivial = the stream makes the client print something; " +
 			"plus, under ALL schedules within two deviations: a stream with the hidden close message written to each handler while one or two other goroutines shut the handler down and a third reads its commands (the tear-down of a connection), and AGGREGATE messages of two servers arriving while the reporter reads the shared result set: no panic, no deadlock, every message counted once",
